@@ -69,7 +69,7 @@ prop('C03', src='props/c03_layout.cpp',
           '(ii) rapidcheck random (secret, birthday, features, coin, language, enabled mask). Oracle: polyseed_encode output is byte-equal to the phrase of the independent reference model '
           '(bit-indexed packing, carry-less GF check value, coin XOR on word 2, golden word list, specification separator, NFC for es/fr/ja/ko), returned length = strlen, store bytes 30-31 = LE16(0x7000|check); '
           'purity: same abstract seed via create and via load, after other encodes, gives the identical string. Every case is non-trivial (conformance); distinct = case fingerprint.',
-     required_classes={'any': ['encrypted', 'userfeatures', 'birthday>511', 'coin:>=1024', 'purity:create-vs-load']},
+     required_classes={'any': ['encrypted', 'userfeatures', 'birthday>511', 'coin:>=1024', 'purity:create-vs-load', 'purity:after-feature-mask-change']},
      technique='property-based conformance testing against an independent reference encoder (rapidcheck) + exhaustive enumeration of all weight<=2 payloads, which determine a bit-linear packing',
      level_text='Differential against a reference model written from the README, validated on the three published vectors. Weight<=2 payloads are enumerated completely for all languages (a bit-linear packing is determined by them); the rest is random sampling, hence exploration.')
 
@@ -107,7 +107,7 @@ prop('C04', src='props/c04_keygen.cpp',
      rule='rapidcheck: (secret, birthday, features, coin, key size in {0,1,16,31,32,33,64,65,4096,SIZE_MAX/2}, path in {created, decoded from a random language, loaded, crypt applied twice}, key buffer = PROT_NONE page with a KDF stub that does not touch it | patterned buffer filled by the stub). '
           'Oracle: the KDF log holds exactly one call with pwlen 32, pw = secret||0^13, saltlen 32, salt = "POLYSEED key" 00 FF FF FF || LE32(coin) || LE32(birthday) || LE32(features) || 0^4, 10000 iterations, the caller\'s pointer and length; the buffer afterwards is exactly what the stub wrote; a neighbour seed differing in one ingredient gives different (pw, salt). '
           'Non-trivial = birthday>511 or coin>2 or features!=0 or path!=created or key size!=32.',
-     required_classes={'any': ['path:created', 'path:decoded', 'path:loaded', 'path:crypt2', 'key:no-access-page', 'key:patterned', 'birthday>511']},
+     required_classes={'any': ['path:created', 'path:decoded', 'path:loaded', 'path:crypt2', 'key:no-access-page', 'key:patterned', 'birthday>511', 'mask-changed-before-keygen']},
      technique='property-based testing (rapidcheck) with a recording KDF stub: every argument compared with the specification, key buffer on an inaccessible page',
      level_text='Every generated case checks all seven KDF arguments against the published formula and path-independence; the key buffer is either inaccessible (any library read/write faults) or compared byte-for-byte with the stub output. Sampling: exploration.')
 
@@ -116,7 +116,7 @@ prop('C10', src='props/c10_features.cpp',
      exhaustive=True,
      rule='(1) exhaustive core: enabling argument in {0..7, 8, 16, 24, 0xF8|k, 0xFFFFFFF8|k} (27 values) x feature value 0..31 x create-argument with/without high bits x 2 languages, each through four entry points (create, load of the model image, decode_explicit and decode of the specification phrase) plus wrong-check-value variants (CHECKSUM must precede UNSUPPORTED); default state probed before the first enabling call; '
           '(2) rapidcheck histories of 1-6 enabling calls. Oracle: return = popcount(arg & 7); accepted iff f & ~(m|16) == 0 with m = last arg & 7, else UNSUPPORTED with no block left allocated; create stores exactly arg & 7; get_feature(q) = f & q & 7 for q in 0..31 and with high bits; is_encrypted = bit 4; features survive phrase/storage round trips; crypt toggles only bit 4. Every case non-trivial.',
-     required_classes={'any': ['default-state', 'create:accepted', 'create:refused', 'load:accepted', 'load:refused', 'decode_explicit:accepted', 'decode_explicit:refused', 'decode:accepted', 'decode:refused', 'reserved-kdf-bit', 'history>1']},
+     required_classes={'any': ['default-state', 'create:accepted', 'create:refused', 'load:accepted', 'load:refused', 'decode_explicit:accepted', 'decode_explicit:refused', 'decode:accepted', 'decode:refused', 'reserved-kdf-bit', 'history>1', 're-injection-between-enabling-and-use']},
      technique='exhaustive enumeration of (mask argument x feature value x entry point) + property-based histories of enabling calls against a feature-admission model',
      level_text='The finite core (27 enabling arguments x 32 feature values x 4 entry points) is enumerated completely on every run; histories of enabling calls and seed contents are sampled. Exploration with an exhaustive core.')
 
@@ -200,7 +200,7 @@ prop('C15', src='props/c15_alloc.cpp', engine='rapidcheck (stateful, fault injec
      level_text='Every (entry point x outcome x fault position) cell is populated on each run and the ledger invariant is checked after every call of every generated sequence under ASan. Fault enumeration: exhaustive over cells, sampled within.')
 
 prop('C18', src='props/c18_deps.cpp', engine='rapidcheck (stateful)',
-     plan={'quick': [{'variant': 'asan-nd', 'workers': 16}, {'variant': 'rel', 'workers': 16}], 'thorough': [{'variant': 'asan-nd', 'workers': 16}, {'variant': 'rel', 'workers': 16}]},
+     plan={'quick': [{'variant': 'asan-nd', 'workers': 16}, {'variant': 'rel', 'workers': 16}, {'variant': 'asan', 'workers': 16, 'scale': 0.03}], 'thorough': [{'variant': 'asan-nd', 'workers': 16}, {'variant': 'rel', 'workers': 16}, {'variant': 'asan', 'workers': 16, 'scale': 0.03}]},
      variant_flags={'rel': {'cxxflags': '-DVERIF_WRAP', 'ldflags': '-Wl,--wrap=malloc,--wrap=free,--wrap=time'}},
      exhaustive=True,
      rule='(1) exhaustive: each of the 152 single-bit random-source outputs and their complements: the stored secret equals the delivered 19 bytes with the top two bits of the last dropped, 19 bytes are taken, the birthday is that of the injected clock; '
@@ -218,7 +218,7 @@ prop('C17', src='props/c17_bound.cpp',
      rule='(i) exhaustive: the 2048 words of every registered language as the library itself emits them give per-position maxima (all indices; even indices only in word 3, whose low bit is the reserved feature bit; check word unconstrained) of three lengths - the decomposed phrase assembled inside encode (NFKD words + output separators), the output (NFC), the decomposed form the decoder handles - i.e. sound upper bounds over all 2048^15 word vectors, recorded in the evidence notes; '
           '(ii) witness search: all 15 data words = the longest word x 256 (quick) / 2048 (thorough) coins per language, then rapidcheck vectors drawn from the 1..40 longest words x coins. Oracle for every witness under ASan: encode returns strlen(output); all three lengths < POLYSEED_STR_SIZE; decode_explicit of the output is OK with an equal seed and the normaliser never truncated. '
           'Only concrete seeds are violations; a bound that is not below the buffer size without a witness is reported as a note. Non-trivial = witness whose longest form reaches 90% of its language\'s bound.',
-     required_classes={'any': ['witness>=90%-of-bound', 'witness:Korean', 'witness:Japanese', 'bound:Korean']},
+     required_classes={'any': ['witness>=90%-of-bound', 'witness:Korean', 'witness:Japanese', 'bound:Korean', 'exact-bound-witness:Korean', 'exact-bound-witness:Japanese', 'exact-bound-witness:English']},
      technique='exhaustive enumeration of word lengths (sound bound over all word vectors) + property-based witness search over extremal seeds (rapidcheck) under ASan',
      level_text='The bound is decided by enumeration of all 20480 words (a sound upper bound for every word vector) and confirmed by encoding/decoding extremal witness seeds under ASan. Exploration with an exhaustive bound computation.')
 
